@@ -155,7 +155,7 @@ c05_parse_extra_any!(c05_parse_extra_any_11, 11, 4);
 // @h prop=C05 tier=thorough t=900 mem=10 name=c05_parse_extra_any_7
 c05_parse_extra_any!(c05_parse_extra_any_7, 7, 3);
 /// C05 extra-field parser over every byte string of length 13.
-// @h prop=C05 tier=thorough t=1800 mem=16 name=c05_parse_extra_any_13
+// @h prop=C05 tier=thorough t=1800 mem=8 name=c05_parse_extra_any_13
 c05_parse_extra_any!(c05_parse_extra_any_13, 13, 5);
 
 /// C16(a) AES extra field (0x9901): every 7-byte body maps to the documented
@@ -448,7 +448,7 @@ macro_rules! c03_open_single {
 /// zeroed local sizes, DOS time/date, attributes, disk/internal attrs). Every accessor equals
 /// the builder's value (offsets shifted by the junk; offset() == junk length), out-of-range
 /// index -> FileNotFound.
-// @h prop=C03,C19,C01 tier=quick t=1500 mem=32 name=c03_open_meta_j2
+// @h prop=C03,C19,C01 tier=quick t=1500 mem=12 name=c03_open_meta_j2
 c03_open_single!(c03_open_meta_j2, MODE=0, J=2, LX=0, P=2, CX=0, FC=0, AC=1, G=0, unwind=8);
 
 macro_rules! c03_entry_read {
@@ -566,10 +566,10 @@ macro_rules! c03_entry_read {
 /// bytes, the 2-byte payload and the DECLARED CRC are symbolic. data_start comes from the
 /// local header; reading returns exactly the payload; the read completes with Ok(0) iff the
 /// declared CRC equals the bitwise-reference CRC of the payload, otherwise it errors at EOF.
-// @h prop=C03,C04,C01 tier=quick t=1500 mem=24 name=c03_entry_read_j2_x0
+// @h prop=C03,C04,C01 tier=quick t=1500 mem=10 name=c03_entry_read_j2_x0
 c03_entry_read!(c03_entry_read_j2_x0, J=2, LX=0, P=2, unwind=8);
 /// C03/C04 entry data path with a 4-byte local extra field the central record does not have.
-// @h prop=C03,C04 tier=thorough t=1800 mem=24 name=c03_entry_read_j0_x4
+// @h prop=C03,C04 tier=thorough t=1800 mem=10 name=c03_entry_read_j0_x4
 c03_entry_read!(c03_entry_read_j0_x4, J=0, LX=4, P=2, unwind=8);
 
 // =============================================================================================
@@ -604,8 +604,8 @@ fn is_password_required(e: &ZipError) -> bool {
 }
 
 /// a one-entry archive whose central metadata and local header region are hostile
-fn hostile_archive() -> (ZipArchive<Src<48>>, bool, bool, u16) {
-    const N: usize = 48;
+fn hostile_archive() -> (ZipArchive<Src<64>>, bool, bool, u16) {
+    const N: usize = 64;
     let mut b: [u8; N] = kani::any();
     put32(&mut b, 0, SIG_LOCAL);
     let nl: u16 = kani::any();
@@ -619,7 +619,7 @@ fn hostile_archive() -> (ZipArchive<Src<48>>, bool, bool, u16) {
     data.using_data_descriptor = kani::any();
     data.aes_mode = any_aes_mode();
     data.crc32 = kani::any();
-    kani::assume(data.compressed_size <= 14);
+    kani::assume(data.compressed_size <= 24);
     let encrypted = data.encrypted;
     let has_aes = data.aes_mode.is_some();
     #[allow(deprecated)]
@@ -628,11 +628,11 @@ fn hostile_archive() -> (ZipArchive<Src<48>>, bool, bool, u16) {
 }
 
 /// C05/C15 by_index on a hostile entry: every combination of (encrypted flag, AES extra present
-/// or not and which, method number incl. 99/unknown, data-descriptor flag, sizes <= 14, CRC) over
-/// an arbitrary 48-byte local header region: by_index and the first read return a value or an
+/// or not and which, method number incl. 99/unknown, data-descriptor flag, sizes <= 24, CRC) over
+/// an arbitrary 64-byte local header region: by_index and the first read return a value or an
 /// error - no panic, no unwrap failure, no overflow; an encrypted entry without a password is
 /// refused with exactly the password-required error.
-// @h prop=C05,C15 tier=quick t=1500 mem=24
+// @h prop=C05,C15 tier=quick feat=base,aes t=1500 mem=10
 #[kani::proof]
 #[kani::unwind(8)]
 #[kani::stub(crc32fast::Hasher::internal_new_specialized, crate::verif_kit::stub_crc_specialized)]
@@ -663,7 +663,7 @@ fn c05_open_entry_nopw() {
 
 /// C05 by_index_raw on the same hostile entries: always succeeds for an in-range header and
 /// never panics on read.
-// @h prop=C05,C14 tier=quick t=1500 mem=24
+// @h prop=C05,C14 tier=quick t=1500 mem=10
 #[kani::proof]
 #[kani::unwind(8)]
 #[kani::stub(crc32fast::Hasher::internal_new_specialized, crate::verif_kit::stub_crc_specialized)]
@@ -688,11 +688,14 @@ fn c05_open_entry_raw() {
 
 /// C05/C15 by_index_decrypt(password) on the same hostile entries (short encrypted entries,
 /// AES extra without the flag, ...): value, InvalidPassword or error - never a panic.
-// @h prop=C05,C15 tier=quick t=1500 mem=24
+// @h prop=C05,C15,C16 tier=quick feat=base,aes t=1800 mem=10
 #[kani::proof]
-#[kani::unwind(14)]
+#[kani::unwind(36)]
 #[kani::stub(crc32fast::Hasher::internal_new_specialized, crate::verif_kit::stub_crc_specialized)]
 #[kani::stub(std::hash::RandomState::new, crate::verif_kit::stub_random_state)]
+#[cfg_attr(feature = "aes-crypto", kani::stub(pbkdf2::pbkdf2, crate::verif_kit::stub_pbkdf2_any))]
+#[cfg_attr(feature = "aes-crypto", kani::stub(core::arch::x86_64::__cpuid, crate::verif_kit::stub_cpuid))]
+#[cfg_attr(feature = "aes-crypto", kani::stub(core::arch::x86_64::__cpuid_count, crate::verif_kit::stub_cpuid_count))]
 fn c05_open_entry_pw() {
     let (mut ar, encrypted, has_aes, _method) = hostile_archive();
     let pw: [u8; 1] = kani::any();
